@@ -33,6 +33,9 @@ CASES = {
         {MAIN: "PUSH1 0x04 CALLDATALOAD PUSH @r JUMPI PUSH0 PUSH4 0x00200000 RETURN r: PUSH0 PUSH4 0x00200000 REVERT"}, 1, False, {}, ["C01"]),
     "log-zero-size-huge-offset": (
         {MAIN: f"PUSH0 PUSH4 0x00200000 LOG0 PUSH1 0x07 PUSH0 MSTORE {RET}"}, 1, False, {}, ["C01"]),
+    # the 1024-item stack limit
+    "stack-limit-1025-items": (
+        {MAIN: " ".join(["PUSH0"] * 1025) + " STOP"}, 1, False, {}, ["C01"]),
     # plain sanity cases that must always agree
     "branch-on-arg": (
         {MAIN: f"PUSH1 0x2a PUSH1 0x04 CALLDATALOAD EQ PUSH @t JUMPI PUSH1 0x01 PUSH0 MSTORE {RET} t: PUSH1 0x02 PUSH0 MSTORE PUSH1 0x20 PUSH0 REVERT"},
